@@ -793,9 +793,16 @@ class Message:
         )
 
         if set_uri_host and not is_ip_literal:
+            # Not parsed.hostname: that went through str.lower(), which also
+            # changes characters outside of ASCII (U+212A KELVIN SIGN becomes
+            # "k", a different host than under its escaped spelling
+            # "%E2%84%AA"), whereas RFC 7252 asks for ASCII lower case. (At
+            # this point there is neither user info nor a bracket in the
+            # netloc.)
+            host = parsed.netloc.partition(":")[0]
             try:
                 self.opt.uri_host = urllib.parse.unquote(
-                    parsed.hostname, errors="strict"
+                    host, errors="strict"
                 ).translate(_ascii_lowercase)
             except UnicodeError as e:
                 raise error.MalformedUrlError(
